@@ -24,6 +24,11 @@ pub struct Sc {
     /// environment: `env_vars` variables with values of `env_val_len` bytes
     pub env_vars: usize,
     pub env_val_len: usize,
+    /// 0: variables named E0, E1, …; 1: names as they occur in real environments (exported
+    /// shell functions `BASH_FUNC_f%%`, LS_COLORS, LESS_TERMCAP_*, `_`, dotted and lower-case
+    /// names): every one of them is passed to the children and counts against the budget
+    #[serde(default)]
+    pub env_name_style: u8,
     pub initial: Vec<String>,
     /// replace mode (-I {}): `initial` holds templates, every input line is one invocation
     /// whose arguments are the templates with {} replaced by the line
@@ -72,7 +77,21 @@ impl Sc {
     pub fn env(&self) -> Vec<(String, String)> {
         let mut env = vec![("PATH".to_string(), "/usr/bin:/bin".to_string())];
         for i in 0..self.env_vars {
-            env.push((format!("E{i}"), "v".repeat(self.env_val_len)));
+            let name = if self.env_name_style == 0 {
+                format!("E{i}")
+            } else {
+                match i % 8 {
+                    0 => format!("BASH_FUNC_f{i}%%"),
+                    1 => format!("LESS_TERMCAP_m{i}"),
+                    2 => format!("lower_case{i}"),
+                    3 => format!("dotted.name{i}"),
+                    4 => format!("BASH_FUNC_module{i}%%"),
+                    5 => format!("LS_COLORS{i}"),
+                    6 => format!("_{i}"),
+                    _ => format!("E{i}"),
+                }
+            };
+            env.push((name, "v".repeat(self.env_val_len)));
         }
         env
     }
@@ -254,6 +273,7 @@ impl Property for C06 {
                 rlimit_stack: Some(*rng.pick(&[32u64 << 20, 64 << 20, 1 << 30, u64::MAX])),
                 env_vars: rng.urange(0, 30),
                 env_val_len: rng.urange(0, 50),
+                env_name_style: 0,
                 initial: vec![],
                 replace: false,
                 words_per_line: 1,
@@ -310,6 +330,7 @@ impl Property for C06 {
                 rlimit_stack,
                 env_vars,
                 env_val_len,
+                env_name_style: u8::from(rng.chance(1, 4)),
                 initial,
                 replace: true,
                 words_per_line: 1,
@@ -359,6 +380,7 @@ impl Property for C06 {
             rlimit_stack,
             env_vars,
             env_val_len,
+            env_name_style: u8::from(rng.chance(1, 4)),
             initial,
             replace: false,
             words_per_line,
